@@ -16,7 +16,7 @@ tvars == <<q, closed, rd, dl, nid, out, acc, dlv, l, kfs>>
 
 Trace == ndJsonDeserialize(TraceFile)
 HW == 1                \* register: highest line consumed
-VI == 2                \* register: first mismatch <<line, expected outcome>>
+VI == 2                \* register: first mismatch <<line, [expected outcome, known-finding sites of that step]>>
 KF == 3                \* register: sequence of known-finding keys met (with multiplicity capped by the checker)
 E  == Trace[l]
 
@@ -55,7 +55,7 @@ Count(s) == IF Len(TLCGet(KF)) < 2000 THEN TLCSet(KF, TLCGet(KF) \o s) ELSE TRUE
 Check == /\ TLCSet(HW, IF l - 1 > TLCGet(HW) THEN l - 1 ELSE TLCGet(HW))
          /\ IF l = 1 \/ LE.a = "reset" THEN TRUE
             ELSE IF Conforms THEN (kfs = <<>> \/ Count(kfs))
-            ELSE TLCSet(VI, <<l - 1, out>>) /\ FALSE
+            ELSE TLCSet(VI, <<l - 1, [exp |-> out, kf |-> kfs]>>) /\ FALSE
 
 TraceAccepted ==
   IF TLCGet(VI) # <<>> THEN Print(<<"MISMATCH", TLCGet(VI)[1], ToJson(TLCGet(VI)[2])>>, FALSE)
